@@ -759,6 +759,17 @@ class NumWalker(Walker):
             af = self.adapter_forks(st, fname, args)
             if af is not None:
                 return af
+        if self.facts is not None and self.depth < 3 and resolved and resolved != self.body.path and args and not (c and (c.get("self_effect"))):
+            # a method of the same impl called on `self` (e.g. read_bits finishing through self.skip_bits_after_peek(n)): walked in
+            # context like a private helper; the primitives with an assume-guarantee contract (read_bits / write_bits) keep it
+            a0 = args[0]
+            while isinstance(a0, tuple) and a0 and a0[0] in ("ref", "deref"):
+                a0 = a0[1]
+            bl = self.facts.by_path.get(resolved, [])
+            mine = self.body.b.get("impl_self") if hasattr(self.body, "b") else None
+            if a0 == ("arg", 1, "self") and len(bl) == 1 and bl[0].get("blocks") and mine and bl[0].get("impl_self") == mine \
+                    and bl[0]["kind"] == "AssocFn" and fname not in self.contracts_self_opaque:
+                return self.inline_call(st, bl[0], args)
         if self.inline and self.facts is not None and self.depth < 6:
             for nm in (resolved, fname):
                 if nm and (self.inline(nm) or self.private_helper(nm)):
@@ -766,6 +777,11 @@ class NumWalker(Walker):
                     if len(bl) == 1:
                         return self.inline_call(st, bl[0], args)
         return None
+
+    # own methods that are never walked in context (their effect on the ghost state is declared where they are called)
+    contracts_self_opaque = ("traits::bits::BitRead::read_bits", "traits::bits::BitWrite::write_bits", "traits::bits::BitRead::read_unary",
+                             "traits::bits::BitWrite::write_unary", "traits::bits::BitRead::copy_to", "traits::bits::BitWrite::copy_from",
+                             "traits::bits::BitWrite::flush")
 
     def private_helper(self, nm):
         """a module-private function of the bit layer (src/impls) without a contract: analysed in the caller's context, so that
